@@ -40,6 +40,7 @@ type Activation struct {
 	onwrite map[string][]Clause
 	locked  bool
 	loopModes map[string]*arrMode
+	allocNames map[string]string
 }
 
 type retRec struct {
@@ -482,6 +483,10 @@ func (a *Activation) step(instr ssa.Instruction, st *State) *State {
 			return st
 		}
 		ref := a.allocRef(st, prefixFor(T), in.Comment)
+		if a.allocNames == nil {
+			a.allocNames = map[string]string{}
+		}
+		a.allocNames[ref] = in.Comment
 		st.private = append(st.private, privRef{ref, prefixFor(T)})
 		// zero-initialise
 		t.storeAt(st, prefixFor(T), "", ref, "", T, t.zeroValue(T))
@@ -562,6 +567,7 @@ func (a *Activation) step(instr ssa.Instruction, st *State) *State {
 		l := a.val(in.Len, st)
 		ref := a.allocRef(st, "slice", "makeslice")
 		ET := in.Type().Underlying().(*types.Slice).Elem()
+		st.private = append(st.private, privRef{ref, "elem:" + prefixFor(ET)})
 		a.obligeSafety(st, "bounds", "makeslice", "(>= "+l.S+" 0)", in.Pos())
 		// zero elements: element arrays of a fresh ref are constrained lazily: assume zero for scalar leaves
 		for _, lf := range t.leavesOf(ET) {
